@@ -37,6 +37,17 @@ pub fn case(rng: &mut Rng, thorough: bool) -> String {
             }
         }
     }
+    // now and then the tree has been asked feasibility questions before its regions are listed (`is_edge_feasible`
+    // is what the pruned composition calls for every new edge; it takes `&self`): the regions must not depend on it
+    if rng.chance(1, 4) {
+        let edges: Vec<(usize, usize)> = t.tree.node_iter().filter_map(|(i, nd)| nd.parent.map(|p| (p, i))).collect();
+        for _ in 0..1 + rng.below(3) {
+            if let Some((p, c)) = edges.get(rng.below(edges.len().max(1))).copied() {
+                #[allow(deprecated)]
+                let _ = catch_unwind(AssertUnwindSafe(|| t.is_edge_feasible(p, c)));
+            }
+        }
+    }
     let mut out = String::from("C09 ");
     if rng.chance(1, 8) {
         // grown upwards: the root is not slot 0 and slot 0 is an inner node
